@@ -20,11 +20,11 @@ from .cfgmachine import schema_descriptor
 
 CFG = """CONSTANTS
   Environ <- MCEnviron
-  KeyNames <- MCKeyNames
-  KeyChars <- MCKeyChars
-  TheSchema <- SchemaP
-  RootKey = "kroot"
-  SetCands <- MCSetCands
+  KeyNames <- {keynames}
+  KeyChars <- {keychars}
+  TheSchema <- {schema}
+  RootKey = "{rootkey}"
+  SetCands <- {cands}
   Masks <- MCMasks
   MaxDepth = {depth}
 INIT Init
@@ -33,8 +33,11 @@ VIEW View
 """
 
 
-def write_cfg(path, depth, invs=(), props=(), export=False):
-    text = CFG.format(depth=depth)
+INSTANCE_P = dict(schema="SchemaP", rootkey="kroot", cands="MCSetCands", keynames="MCKeyNames", keychars="MCKeyChars")
+
+
+def write_cfg(path, depth, invs=(), props=(), export=False, instance=None):
+    text = CFG.format(depth=depth, **(instance or INSTANCE_P))
     for i in invs:
         text += "INVARIANT %s\n" % i
     for p in props:
@@ -50,7 +53,11 @@ def xor(key, data):
 
 
 class World:
-    def __init__(self, cinco, desc, focus):
+    root_key = "kroot"  # name of the root configuration's key file ("" = the default ~/.cincokey)
+
+    def __init__(self, cinco, desc, focus, root_key=None):
+        if root_key is not None:
+            self.root_key = root_key
         self.cinco = cinco
         self.desc = desc
         self.focus = focus
@@ -63,7 +70,7 @@ class World:
         self.old_default = cinco.Config.DEFAULT_CINCOKEY_FILEPATH
         cinco.Config.DEFAULT_CINCOKEY_FILEPATH = os.path.join(self.home, ".cincokey")
         self.schema = cfgadapter.build_schema_topdown(cinco, desc, self.root)
-        self.keyfile = os.path.join(self.root, "kroot")
+        self.keyfile = os.path.join(self.root, self.root_key) if self.root_key else None
         self.cfg = cinco.Config(self.schema, key_filename=self.keyfile)
         self.plaintexts = set()
         self.opened = None
@@ -232,7 +239,7 @@ class World:
                 for key in codec.seq(ev["p"]):
                     target = getattr(target, key)
                 factory = None
-                if ev["v"]["t"] == "cfgobj":
+                if ev["v"]["t"] == "cfgobj" or (ev["v"]["t"] == "list" and any(i.get("t") == "cfgobj" for i in codec.seq(ev["v"]["l"]))):
                     factory = cfgadapter.schema_field(cinco, self.schema, list(codec.seq(ev["p"])) + [ev["k"]])
                 setattr(target, ev["k"], cfgadapter.value_to_py(cinco, ev["v"], factory, self.root))
             elif op == "RoundTrip":
@@ -412,13 +419,14 @@ def nonplain(x, path=""):
 
 
 class Adapter:
-    def __init__(self, cinco, desc, focus):
+    def __init__(self, cinco, desc, focus, root_key=None):
         self.cinco = cinco
         self.desc = desc
         self.focus = focus
+        self.root_key = root_key
 
     def start(self, init):
-        return World(self.cinco, self.desc, self.focus)
+        return World(self.cinco, self.desc, self.focus, self.root_key)
 
     def step(self, w, ev):
         r = w.step(ev)
@@ -501,7 +509,7 @@ def run_persist(prop, invs, props, tier, seed):
     traces = driver(cinco, desc, seed, ntr, ltr)
     tcfg = os.path.join(d, "trace.cfg")
     with open(tcfg, "w") as fp:
-        fp.write(CFG.format(depth=99).replace("INIT Init", "INIT TraceInit").replace("NEXT Next", "NEXT TraceNext").replace("VIEW View", "VIEW TraceView") + "ACTION_CONSTRAINT Report\nCONSTRAINT ReportState\n")
+        fp.write(CFG.format(depth=99, **INSTANCE_P).replace("INIT Init", "INIT TraceInit").replace("NEXT Next", "NEXT TraceNext").replace("VIEW View", "VIEW TraceView") + "ACTION_CONSTRAINT Report\nCONSTRAINT ReportState\n")
     wanted = set(invs) | set(props)
     verdicts, tstats = tracecheck.validate("Trace_Persist.tla", tcfg, traces, wanted=wanted)
     for v in [v for v in verdicts if not v.accepted][:20]:
@@ -550,16 +558,18 @@ def run_persist(prop, invs, props, tier, seed):
     return out
 
 
-def schema_descriptor_persist():
+def schema_descriptor_persist(instance=None):
+    instance = instance or INSTANCE_P
     d = tlc.scratch("cinco-schema-")
     mod = os.path.join(d, "ShowSchemaP.tla")
     with open(mod, "w") as fp:
         fp.write(
-            '---- MODULE ShowSchemaP ----\nEXTENDS MC_Persist\nASSUME PrintT(<<"CASE", ToJson(SchemaP)>>)\n'
+            '---- MODULE ShowSchemaP ----\nEXTENDS MC_Persist\nASSUME PrintT(<<"CASE", ToJson(%s)>>)\n'
             "I == cfg = <<>> /\\ ev = <<>> /\\ steps = 0\nN == FALSE /\\ UNCHANGED <<cfg, ev, steps>>\n====\n"
+            % instance["schema"]
         )
     with open(os.path.join(d, "ShowSchemaP.cfg"), "w") as fp:
-        fp.write(CFG.format(depth=1).split("INIT")[0] + "INIT I\nNEXT N\n")
+        fp.write(CFG.format(depth=1, **instance).split("INIT")[0] + "INIT I\nNEXT N\n")
     for name in os.listdir(tlc.SPEC_DIR):
         if name.endswith(".tla"):
             os.symlink(os.path.join(tlc.SPEC_DIR, name), os.path.join(d, name))
